@@ -32,6 +32,13 @@ type c04item struct {
 	key bool // starts a key frame
 }
 
+// c04Codec / c04TsBase select the video codec and the first RTP timestamp of the next c04RtpSeq (set per pattern):
+// a third of the patterns start shortly below 2^32 so that the timestamp wraps a few hundred packets into the stream.
+var (
+	c04Codec  = "H264"
+	c04TsBase uint32
+)
+
 func c04RtpSeq(n, g, slices int, idBase uint32) []c04item {
 	out := make([]c04item, 0, n)
 	var vseq, aseq uint16
@@ -47,15 +54,25 @@ func c04RtpSeq(n, g, slices int, idBase uint32) []c04item {
 		if key {
 			typ = 5
 		}
-		ts := uint32(i)*3000 + 7
-		out = append(out, c04item{p: kit.MakeRTP(kit.ChVideo, 96, !(key && slices > 1), vseq, ts, idBase, kit.H264NAL(2, typ, 30+i%40, uint64(i))), key: key})
+		ts := c04TsBase + uint32(i)*3000 + 7
+		nal := func(t byte, i int) []byte {
+			if c04Codec == "H265" {
+				ht := byte(1)
+				if t == 5 {
+					ht = 19 // IDR_W_RADL
+				}
+				return kit.H265NAL(ht, 1, 30+i%40, uint64(i))
+			}
+			return kit.H264NAL(2, t, 30+i%40, uint64(i))
+		}
+		out = append(out, c04item{p: kit.MakeRTP(kit.ChVideo, 96, !(key && slices > 1), vseq, ts, idBase, nal(typ, i)), key: key})
 		vseq++
 		vcount++
 		if key {
 			// further slices of the same key picture: same RTP timestamp, NOT the start of a key frame
 			for k := 1; k < slices && len(out) < n; k++ {
 				i++
-				out = append(out, c04item{p: kit.MakeRTP(kit.ChVideo, 96, k == slices-1, vseq, ts, idBase, kit.H264NAL(2, 5, 30+i%40, uint64(i)))})
+				out = append(out, c04item{p: kit.MakeRTP(kit.ChVideo, 96, k == slices-1, vseq, ts, idBase, nal(5, i))})
 				vseq++
 			}
 		}
@@ -254,6 +271,10 @@ func runC04(c *kit.Ctx) {
 			n += 2 * g
 		}
 		var seq []c04item
+		c04Codec, c04TsBase = []string{"H264", "H265"}[(pi/2)%2], 0
+		if pi%3 == 2 {
+			c04TsBase = uint32(0) - uint32(3000*(200+rng.Intn(700))) // wraps past 2^32 while the stalled backlog is still small
+		}
 		if flvMode {
 			seq = c04FlvSeq(n, g)
 		} else {
@@ -274,12 +295,16 @@ func runC04(c *kit.Ctx) {
 			}
 		}
 		config.VerifSet(false, cacheOn, "", 5)
-		s := media.NewStream(fmt.Sprintf("/c04/s%d", atomic.AddInt64(&c04pathSeq, 1)), kit.SDPH264AAC)
+		sdpText := kit.SDPH264AAC
+		if c04Codec == "H265" && !flvMode {
+			sdpText = kit.SDPH265AAC
+		}
+		s := media.NewStream(fmt.Sprintf("/c04/s%d", atomic.AddInt64(&c04pathSeq, 1)), sdpText)
 		pt := media.RTPPacket
 		if flvMode {
 			pt = media.FLVPacket
 		}
-		scen := fmt.Sprintf("G=%d/flv=%v/cache=%v/slices=%d", g, flvMode, cacheOn, slices)
+		scen := fmt.Sprintf("G=%d/flv=%v/cache=%v/slices=%d/%s/ts-wrap=%v", g, flvMode, cacheOn, slices, c04Codec, c04TsBase != 0)
 		c.Pre(fmt.Sprintf("C04 pattern %d %s n=%d", pi, scen, n))
 
 		healthy := &kit.RecConsumer{}
